@@ -1249,7 +1249,11 @@ class WorkflowConductor(object):
         ctx = {}
 
         for ctx_idx in ctx_idxs:
-            ctx = dict_util.merge_dicts(ctx, self.workflow_state.contexts[ctx_idx], overwrite=True)
+            # Merge a copy of the recorded context. Otherwise, the nested values of the recorded
+            # context are shared with the merged context and are updated when a later context
+            # or the caller is merged into it.
+            ctx_copy = json_util.deepcopy(self.workflow_state.contexts[ctx_idx])
+            ctx = dict_util.merge_dicts(ctx, ctx_copy, overwrite=True)
 
         return ctx
 
